@@ -85,6 +85,9 @@ def make_interp():
     return it
 
 
+ISO_ARGS = None      # set to (E11, nu, h) by the caller for the iso_ modules
+
+
 def point_args(it, mod, F, c):
     """the cc_attributes struct as an object whose pointer fields are one-element lists"""
     a = Obj(None)
@@ -92,6 +95,8 @@ def point_args(it, mod, F, c):
     sina, cosa = real('sina'), real('cosa')
     vals = dict(sina=[sina], cosa=[cosa], tLA=[real('tLA')], r2=[real('r2')], L=[real('L')], F=F, m1=[integer('m1')], m2=[integer('m2')],
                 n2=[integer('n2')], coeffs=c, c0=None, m0=[0], n0=[0])
+    if ISO_ARGS is not None:
+        vals.update(E11=[ISO_ARGS[0]], nu=[ISO_ARGS[1]], h=[ISO_ARGS[2]])
     for k, v in vals.items():
         a.attrs[k] = v
     return a
